@@ -56,6 +56,11 @@ def handler_arm(kind, ret, clobber=True, mode=None):
     if base == 'srs_rfe':
         w = ([A.dp_imm('sub', 14, 14, adj)] if adj else []) + [A.srs(mode, p=1, u=0, w=1), A.push(0x100F)] + body + [A.pop(0x100F), A.rfe(13, p=0, u=1, w=1)]
         return w
+    if base in ('srs_cps_sys_rfe', 'srs_cps_svc_rfe'):
+        # the re-entrant / RTOS idiom: save the return state on ANOTHER mode's stack, switch to that mode, return from there with RFE
+        tm = 0x1F if base == 'srs_cps_sys_rfe' else 0x13
+        return (([A.dp_imm('sub', 14, 14, adj)] if adj else []) + [A.srs(tm, p=1, u=0, w=1), A.cps(0, 0, tm), A.push(0x100F)] + body +
+                [A.pop(0x100F), A.rfe(13, p=0, u=1, w=1)])
     if base in ('srs_rfe_iadb', 'srs_rfe_ibda', 'srs_rfe_daib'):
         # the other three SRS/RFE addressing pairs; ascending frames need a gap before the (descending) PUSH
         sp_, su, rp, ru, gap = {'srs_rfe_iadb': (0, 1, 1, 0, 32), 'srs_rfe_ibda': (1, 1, 0, 0, 32), 'srs_rfe_daib': (0, 0, 1, 1, 0)}[base]
@@ -83,6 +88,10 @@ def handler_thumb(kind, ret, clobber=True, mode=None):
     if base == 'srs_rfe':
         pre = [0xF1AE0E00 | adj] if adj else []                  # SUB.W lr, lr, #adj
         return pre + [T.srs(mode, db=1, w=1), T.push(0x0F)] + body + [T.pop(0x0F), T.rfe(13, db=0, w=1)]
+    if base in ('srs_cps_sys_rfe', 'srs_cps_svc_rfe'):
+        tm = 0x1F if base == 'srs_cps_sys_rfe' else 0x13
+        pre = [0xF1AE0E00 | adj] if adj else []
+        return pre + [T.srs(tm, db=1, w=1), T.cps_w(0, 0, tm), T.push(0x0F)] + body + [T.pop(0x0F), T.rfe(13, db=0, w=1)]
     if base == 'srs_rfe_iadb':
         pre = [0xF1AE0E00 | adj] if adj else []
         return pre + [T.srs(mode, db=0, w=1), 0xB008, T.push(0x0F)] + body + [T.pop(0x0F), 0xB088, T.rfe(13, db=1, w=1)]      # ADD sp,#32 ... SUB sp,#32
